@@ -360,7 +360,16 @@ class Folder:
     def _call(self, m: Module, e: ast.Call, env: Dict[str, Any]) -> Any:
         ev = lambda x: self._eval(m, x, env)
         f = e.func
-        args = [ev(a) for a in e.args]
+        args = []
+        for a in e.args:
+            if isinstance(a, ast.Starred):
+                v = ev(a.value)
+                if isinstance(v, (list, tuple)):
+                    args.extend(v)
+                else:
+                    args.append(Unknown("starred argument"))
+            else:
+                args.append(ev(a))
         if isinstance(f, ast.Attribute):
             obj = ev(f.value)
             name = f.attr
